@@ -188,6 +188,18 @@ func viaLines(class, tag string) []string {
 		return []string{"Via: 1.1 " + tag + ", 1.1 later", "Connection: keep-alive, VIA"}
 	case "othersNominated":
 		return []string{"Via: 1.1 otherproxy, 1.0 older", "Connection: keep-alive, via"}
+	case "ownAfterUnclosedComment":
+		return []string{"Via: 1.1 other (never closed, 1.1 " + tag}
+	case "ownNestedComment":
+		return []string{"Via: 1.0 first, 1.1 " + tag + " (a (nested, with a comma) comment), 1.1 later"}
+	case "ownAfterTab":
+		return []string{"Via: 1.0 first, 1.1\t" + tag}
+	case "ownInOthersComment":
+		return []string{"Via: 1.1 edge (peer of " + tag + ")"}
+	case "ownPrefixOfOther":
+		return []string{"Via: 1.0 first, 1.1 " + tag + ".proxy.corp.example:3128"}
+	case "ownSuffixOfOther":
+		return []string{"Via: 1.1 eu-" + tag + ", 1.1 later"}
 	}
 	fatal("unknown via class %q", class)
 	return nil
